@@ -33,6 +33,9 @@ def config(rng, t, st, methods):
         # "immediate forgetting" of positive regret: the discount factor is exactly zero, so the order of
         # regret matching and discounting in the per-infoset update becomes visible
         params = [-INF, rng.choice([-INF, 0.0, 1.0, INF]), rng.choice([0.0, 1.0, 2.0]), rng.choice([INF, 0.0, -0.5, 1.0])]
+    if rng.random() < 0.1:
+        # regrets not discounted at all (+inf, +inf) but the average weighted by t^g: only the averaging step is left
+        params = [INF, INF, rng.choice([0.5, 1.0, 2.0, 3.0]), rng.choice([0.0, INF, 1.0])]
     T = rng.choice([0, 1, 2, 2, 3, 3, 4, 10])
     r = rng.choice([0.0, 0.0, 0.0, -1.0, 1e-2, 0.5, 5.0])
     draws = draws_for(rng, t, st) if method != "full" else None
@@ -90,6 +93,10 @@ def generate(rng, tier, n, methods=METHODS):
             # iteration into the next one, D1/D2, shows)
             ks = [2, rng.choice([2, 3, 3, 4])]
             t, st = alternating_tree(rng, rng.choice([4, 5, 6]), first=rng.choice([1, 2]))
+        elif c < 0.85:
+            # a hidden deal with uneven weights near the root, infosets spanning all deals, odd thread counts
+            t, st = hidden_deal_tree(rng, outcomes=rng.choice([3, 4, 6]), depth=rng.choice([2, 3]), actions=rng.choice([2, 3]))
+            ks = rng.sample([2, 3, 5], 2)
         else:
             t, st = gen_tree(rng, max_nodes=rng.choice([15, 40, 80]), max_depth=rng.choice([4, 6]),
                              p_share=rng.choice([0.5, 0.8]))
